@@ -135,12 +135,17 @@ func (s *scopedWalker) walkFn(path string, d fs.DirEntry, err error) error {
 
 	name := path
 	if s.strip != "" {
-		name = strings.TrimPrefix(name, s.strip)
+		if path+string(os.PathSeparator) == s.strip {
+			// the directory whose contents were requested
+			name = "."
+		} else {
+			name = strings.TrimPrefix(name, s.strip)
+		}
 	}
 	if opts.DebugGTE(rsyncopts.DEBUG_FLIST, 1) {
 		logger.Printf("Trim(path=%q) = %q", path, name)
 	}
-	if path == "." {
+	if name == "." {
 		flags |= rsync.XMIT_TOP_DIR
 	}
 	// st.logger.Printf("flags for %q: %v", name, flags)
